@@ -296,3 +296,73 @@ var ruleAnnA5 = &Rule{
 		return obs
 	},
 }
+
+// ---------------------------------------------------------------------------------------------
+// A6: the table of built-in annotation type names contains every documented default type
+
+// documented default types (docs/manual/annotate.md, "Lua的默认类型有"); frozen reference
+var documentedDefaultTypes = []string{"nil", "boolean", "number", "string", "function", "userdata", "thread", "any", "table", "void"}
+
+var ruleAnnA6 = &Rule{
+	Name:    "ANN/A6-builtin-type-table",
+	NeedSSA: true,
+	Text:    "the table of built-in annotation type names (GlobalConfig.ignoreSysAnnotateTypeMap, consulted before an `undefined annotation type` warning is issued) is filled with every default type the manual documents (nil boolean number string function userdata thread any table void): a missing name makes a conforming annotation line such as `---@type userdata` a warning. The names are collected from the string constants of every function that stores into that map (direct assignments or a loop over a constant list)",
+	Run: func(c *Ctx) []Ob {
+		var obs []Ob
+		commonPkg := modPath + "/langserver/check/common"
+		have := map[string]bool{}
+		var site string
+		n := 0
+		for _, f := range c.ModFns() {
+			writes := false
+			for _, b := range f.Blocks {
+				for _, ins := range b.Instrs {
+					mu, ok := ins.(*ssa.MapUpdate)
+					if !ok {
+						continue
+					}
+					ld, ok := mu.Map.(*ssa.UnOp)
+					if !ok {
+						continue
+					}
+					fa, ok := ld.X.(*ssa.FieldAddr)
+					if !ok || fieldOf(fa).Name() != "ignoreSysAnnotateTypeMap" {
+						continue
+					}
+					if p, nm := namedPkgName(fa.X.Type()); p != commonPkg || nm != "GlobalConfig" {
+						continue
+					}
+					writes = true
+					if site == "" {
+						site = c.Pos(mu.Pos())
+					}
+				}
+			}
+			if !writes {
+				continue
+			}
+			n++
+			for _, b := range f.Blocks {
+				for _, ins := range b.Instrs {
+					for _, op := range ins.Operands(nil) {
+						if k, ok := (*op).(*ssa.Const); ok && k.Value != nil && k.Value.Kind() == constant.String {
+							have[constant.StringVal(k.Value)] = true
+						}
+					}
+				}
+			}
+		}
+		if n == 0 {
+			return []Ob{{Key: "ANN/A6:slots", Verdict: UNDECIDED, Note: "slot unresolved: no function stores into GlobalConfig.ignoreSysAnnotateTypeMap"}}
+		}
+		for _, t := range documentedDefaultTypes {
+			key := "ANN/A6:type:" + t
+			if have[t] {
+				obs = append(obs, Ob{Key: key, Site: site, Verdict: OK})
+			} else {
+				obs = append(obs, Ob{Key: key, Site: site, Verdict: VIOLATION, Note: "documented default type " + t + " is not inserted into the built-in type table: `---@type " + t + "` is reported as an undefined annotation type"})
+			}
+		}
+		return obs
+	},
+}
